@@ -400,6 +400,13 @@ func v14GenConf(rng *rand.Rand, mode, flavor string) *v14Conf {
 		cf.HoldS2C = true
 		cf.WaitSettings = false
 		cf.SrvMaxStreams = 0
+	case "frame-boundary":
+		// Field blocks whose length is exactly the frame size the peer accepts: both peers keep
+		// the protocol minimum, one session sweeps the length of one field octet by octet.
+		cf.SrvMaxFrame, cf.CliMaxFrame = 16384, 16384
+		cf.SrvMaxHeaderBytes, cf.CliMaxHeaderList = 1<<20, 1<<20
+		cf.SrvMaxStreams = 0
+		cf.Waves = []int{1, 8, 8, 8, 8, 8, 8, 8, 8}
 	case "near-limit":
 		cf.SrvMaxHeaderBytes = vsrvPick(rng, 4096, 16384, 65536, 65536, 1<<20)
 		cf.CliMaxHeaderList = vsrvPick[uint32](rng, 16384, 65536, 65536, 1<<20)
@@ -814,6 +821,38 @@ func v14GenExch(rng *rand.Rand, cf *v14Conf, idx, wave int, flavor string, maxBo
 	}
 	e.ReqWireSize = v14ReqWireSize(e, cf)
 	return e
+}
+
+// v14Boundary turns exchange e of a "frame-boundary" session into one of a sweep: everything that
+// contributes to the size of the field block is the same in every exchange of the session except
+// one field whose value grows by one octet per exchange (octets whose Huffman code has 8 bits, so
+// the encoder sends them as they are): once the dynamic table has settled after the first exchange
+// consecutive exchanges have consecutive block lengths, and the sweep crosses 16384. kind selects
+// the block: 0 request header, 1 request trailer, 2 response header, 3 response trailer.
+func v14Boundary(e *v14Exch, cf *v14Conf, kind int) {
+	e.Method, e.Scheme, e.URLHost, e.HostOver, e.Path, e.RawQuery = "POST", "https", "verif.test", "", "/boundary", ""
+	e.Expect100, e.EarlyHints, e.NearLimit = false, 0, ""
+	e.ReqHdr, e.ReqTrailer, e.RespHdr, e.RespTrDecl, e.RespTrHdr, e.RespTrPfx = []v14Hdr{{K: "X-V14-Id", V: []string{strconv.Itoa(e.Idx)}}}, nil, nil, nil, nil, nil
+	e.RespGzip, e.RespRaw = false, nil
+	e.Status, e.ExplicitWH, e.RespDecl = 200, true, false
+	e.RespHdr = []v14Hdr{{K: "Content-Type", V: []string{"application/octet-stream"}}, {K: "Date", V: []string{"Thu, 01 Jan 2026 00:00:00 GMT"}}}
+	e.ReqBodyKind, e.ReqBody, e.ReqChunk = 3, v14GenBody(rand.New(rand.NewPCG(e.Seed, 1)), 10), 10
+	e.RespBody = v14GenBody(rand.New(rand.NewPCG(e.Seed, 2)), 10)
+	e.handlerBody = true
+	v := strings.Repeat("X", 16384-64+e.Idx)
+	switch kind {
+	case 0:
+		e.ReqHdr = append(e.ReqHdr, v14Hdr{K: "X-Boundary", V: []string{v}})
+	case 1:
+		e.ReqTrailer = []v14Hdr{{K: "X-Boundary-T", V: []string{v}}}
+	case 2:
+		e.RespHdr = append(e.RespHdr, v14Hdr{K: "X-Boundary", V: []string{v}})
+	default:
+		e.RespTrDecl = []v14Hdr{{K: "X-Boundary-T", V: []string{v}}}
+		e.RespTrHdr = []string{"X-Boundary-T"}
+		e.RespHdr = append(e.RespHdr, v14Hdr{K: "Trailer", V: e.RespTrHdr})
+	}
+	e.ReqWireSize = v14ReqWireSize(e, cf)
 }
 
 // ---------------------------------------------------------------------------------------
